@@ -475,7 +475,7 @@ theorem select_safe : ∀ (p : Policy) (w : Bool) (pool : Pool) (ds : List Nat),
   | .randomChoose k, w, pool, ds => by simp only [select]; exact selRandomChoose_safe k pool ds
   | .hash, w, pool, ds => by simp only [select]; exact selHash_safe pool
   | .keyed true fb, w, pool, ds => by simp only [select]; exact selHash_safe pool
-  | .keyed false fb, w, pool, ds => by simp only [select]; exact select_safe fb false pool ds
+  | .keyed false fb, w, pool, ds => by simp only [select]; exact select_safe fb w pool ds
   | .cookie none fb, w, pool, ds => by
     simp only [select]
     intro i h
@@ -1585,5 +1585,18 @@ theorem wrr_counts (ws : List Nat) (pool : Pool) (c : Nat) (ds : List Nat)
   simp at ht
   simp only [Function.comp, ownerRes, Nat.mod_eq_of_lt ht]
   cases ownerGo ws 0 0 t <;> simp
+
+/-- with a ResponseWriter no policy term can hit the nil dereference -/
+theorem nilSafe_true : ∀ (p : Policy), nilSafe true p = true
+  | .first => rfl
+  | .rr _ => rfl
+  | .wrr _ _ => rfl
+  | .leastConn => rfl
+  | .random => rfl
+  | .randomChoose _ => rfl
+  | .hash => rfl
+  | .keyed true _ => rfl
+  | .keyed false fb => by simp [nilSafe, nilSafe_true fb]
+  | .cookie _ fb => by simp [nilSafe, nilSafe_true fb]
 
 end CaddyModel.C08
